@@ -6,6 +6,12 @@ Import ListNotations.
 
 Definition norb (l : list nat) : Prop := forallb (fun c => negb (c =? c_rb)) l = true.
 
+Lemma ordinary_facts x : ordinary x = true ->
+  (x =? c_rb) = false /\ (x =? c_caret) = false /\ (x =? c_lb) = false /\ (x =? c_colon) = false /\ (x =? c_bs) = false.
+Proof. unfold ordinary. rewrite negb_true_iff, !orb_false_iff. tauto. Qed.
+Lemma coll_at_ord d x e r : coll_at d x e r = true -> ordinary x = true.
+Proof. unfold coll_at. rewrite !andb_true_iff. tauto. Qed.
+
 Lemma rc_skip : forall acc d rest, norb acc -> closed_early QC d (acc ++ c_rb :: rest) = closed_early (QB false false) d rest.
 Proof.
   induction acc as [|a acc IH]; intros d rest H; cbn [app closed_early].
@@ -75,8 +81,17 @@ Lemma wb_head c2 s2 d : (c2 =? c_colon) = false ->
 Proof.
   intros H. cbn [wrap andb]. destruct (c2 =? c_rb); [now eexists _, _|].
   destruct (c2 =? c_lb) eqn:E; [|now eexists _, _].
-  apply Nat.eqb_eq in E. subst c2.
-  destruct s2 as [|d2 s3]; [now eexists _, _|]. destruct (d2 =? c_colon); [apply wc_head|now eexists _, _].
+  apply Nat.eqb_eq in E. subst c2. cbv zeta.
+  assert (Hother : exists x rest,
+    match s2 with
+    | d2 :: s3 => if d2 =? c_colon then wrap true true false (WC [d2]) d s3 else c_lb :: wrap true true false (WB false false) d s2
+    | [] => c_lb :: wrap true true false (WB false false) d s2
+    end = x :: rest /\ (x =? c_colon) = false).
+  { destruct s2 as [|d2 s3]; [now eexists _, _|]. destruct (d2 =? c_colon); [apply wc_head|now eexists _, _]. }
+  destruct s2 as [|d0 [|x0 [|e0 [|r0 s3]]]]; try exact Hother.
+  destruct (coll_at d0 x0 e0 r0) eqn:Ea; [|exact Hother].
+  exists x0, (wrap true true false (WB false false) d s3). split; [reflexivity|].
+  apply coll_at_ord, ordinary_facts in Ea. tauto.
 Qed.
 
 Lemma wrap_safe_len : forall n s q r d, length s <= n -> wf_state q -> reads q r -> closed_early r d (wrap true true false q d s) = false.
@@ -119,15 +134,27 @@ Proof.
       { try rewrite E3 in E2. rewrite andb_true_r in E2. subst mr. cbn [closed_early]. rewrite E1, E3. cbn [andb]. now apply IH. }
       assert (E2' : forall b, b && (c =? c_rb) = false) by (intros b; rewrite E3; apply andb_false_r).
       destruct (c =? c_lb) eqn:E4.
-      { destruct s as [|c2 s2].
-        - cbn [wrap closed_early]. rewrite E1, E2', E3, E4. reflexivity.
-        - cbv iota. destruct (c2 =? c_colon) eqn:E5.
-          + (* the "[" is written later: the reader is still where it was *)
-            apply IH; [cbn [length] in Hs; lia| |exact I]. exists []. split; [now apply Nat.eqb_eq in E5; subst|reflexivity].
-          + destruct (wb_head c2 s2 d E5) as (x & rest & Ew & Hx).
-            assert (Hgoal : closed_early (QB false false) d (wrap true true false (WB false false) d (c2 :: s2)) = false)
-              by (apply IH; [exact Hs|exact I|split; reflexivity]).
-            cbn [closed_early]. rewrite E1, E2', E3, E4. rewrite Ew in *. rewrite Hx. exact Hgoal. }
+      { cbv zeta.
+        assert (Hother : closed_early (QB mc mr) d
+          match s with
+          | d0 :: s2 => if d0 =? c_colon then wrap true true false (WC [d0]) d s2 else c :: wrap true true false (WB false false) d s
+          | [] => c :: wrap true true false (WB false false) d s
+          end = false).
+        { destruct s as [|c2 s2].
+          - cbn [wrap closed_early]. rewrite E1, E2', E3, E4. reflexivity.
+          - cbv iota. destruct (c2 =? c_colon) eqn:E5.
+            + (* the "[" is written later: the reader is still where it was *)
+              apply IH; [cbn [length] in Hs; lia| |exact I]. exists []. split; [now apply Nat.eqb_eq in E5; subst|reflexivity].
+            + destruct (wb_head c2 s2 d E5) as (x & rest & Ew & Hx).
+              assert (Hgoal : closed_early (QB false false) d (wrap true true false (WB false false) d (c2 :: s2)) = false)
+                by (apply IH; [exact Hs|exact I|split; reflexivity]).
+              cbn [closed_early]. rewrite E1, E2', E3, E4. rewrite Ew in *. rewrite Hx. exact Hgoal. }
+        destruct s as [|d0 [|x0 [|e0 [|r0 s3]]]]; try exact Hother.
+        destruct (coll_at d0 x0 e0 r0) eqn:Ea; [|exact Hother].
+        (* a collating symbol: the character it names is an ordinary member for the reader *)
+        apply coll_at_ord, ordinary_facts in Ea. destruct Ea as (F1 & F2 & F3 & F4 & F5).
+        cbn [closed_early]. rewrite F1, F2, F3, !andb_false_r.
+        apply IH; [cbn [length] in Hs; lia|exact I|split; reflexivity]. }
       cbn [closed_early]. rewrite E1, E2', E3, E4. apply IH; [exact Hs|exact I|split; reflexivity].
     + (* WC *)
       destruct Hwf as (a & -> & Ha).
@@ -137,23 +164,138 @@ Proof.
 Qed.
 
 (* for every pattern: the wrapped text cannot close the wrapping group *)
-Theorem inside_group_never_closes : forall p, closed_early QT 0 (inside_group true true false p) = false.
-Proof. intros p. unfold inside_group. now apply (wrap_safe_len (length p)). Qed.
+Theorem inside_group_never_closes : forall p, closed_early QT 0 (inside_group true true false false false p) = false.
+Proof. intros p. unfold inside_group, spell. cbn [orb]. now apply (wrap_safe_len (length p)). Qed.
 
-(* emacs (no extended groups, no character classes, no newline alternation): only what follows a backslash is ever rewritten *)
+(* emacs (no extended groups, no character classes, no newline alternation): only what follows a backslash, and a collating
+   symbol "[.x.]" / "[=x=]" inside a bracket expression, is ever rewritten *)
+Fixpoint collfree (s : list nat) : bool :=
+  match s with
+  | [] => true
+  | c :: s' => negb ((c =? c_lb) && match coll s' with Some _ => true | None => false end) && collfree s'
+  end.
 Definition plain_state (q : wst) : Prop := match q with WT false => True | WB _ _ => True | _ => False end.
-Lemma wrap_emacs_plain : forall s q d, forallb (fun c => negb (c =? c_bs)) s = true -> plain_state q ->
+Lemma emacs_lb s d mc mr : coll s = None ->
+  wrap false false false (WB mc mr) d (c_lb :: s) = c_lb :: wrap false false false (WB false false) d s.
+Proof.
+  intros H. cbn [wrap]. change (c_lb =? c_caret) with false. change (c_lb =? c_rb) with false. change (c_lb =? c_lb) with true.
+  rewrite !andb_false_r. cbv zeta iota. unfold coll in H.
+  destruct s as [|d0 [|x0 [|e0 [|r0 s3]]]]; try reflexivity. destruct (coll_at d0 x0 e0 r0); [discriminate|reflexivity].
+Qed.
+Lemma wrap_emacs_plain : forall s q d, forallb (fun c => negb (c =? c_bs)) s = true -> collfree s = true -> plain_state q ->
   wrap false false false q d s = s.
 Proof.
-  induction s as [|c s IH]; intros q d Hs Hq.
+  induction s as [|c s IH]; intros q d Hs Hf Hq.
   - destruct q as [[|]| | |]; cbn in Hq; try contradiction; reflexivity.
   - cbn [forallb] in Hs. apply andb_true_iff in Hs as [Hc Hs]. apply negb_true_iff in Hc.
-    destruct q as [[|]| |mc mr|]; cbn in Hq; try contradiction; cbn [wrap andb].
-    + rewrite Hc. destruct (c =? c_lb); rewrite IH; auto; exact I.
+    cbn [collfree] in Hf. apply andb_true_iff in Hf as [Hl Hf]. apply negb_true_iff in Hl.
+    destruct q as [[|]| |mc mr|]; cbn in Hq; try contradiction.
+    + cbn [wrap andb]. rewrite Hc. destruct (c =? c_lb); rewrite IH; auto; exact I.
+    + destruct (c =? c_lb) eqn:El.
+      * apply Nat.eqb_eq in El. subst c. cbn [andb] in Hl.
+        assert (Hn : coll s = None) by (destruct (coll s); [discriminate|reflexivity]).
+        rewrite emacs_lb by exact Hn. rewrite IH; auto; exact I.
+      * cbn [wrap]. rewrite El.
+        destruct (mc && (c =? c_caret)); [rewrite IH; auto; exact I|].
+        destruct (mr && (c =? c_rb)); [rewrite IH; auto; exact I|].
+        destruct (c =? c_rb); rewrite IH; auto; exact I.
+Qed.
+Theorem emacs_text_unchanged p : forallb (fun c => negb (c =? c_bs)) p = true -> collfree p = true ->
+  inside_group false false false false false p = p.
+Proof. intros H Hf. unfold inside_group, spell. cbn [orb]. now apply wrap_emacs_plain. Qed.
+
+(* ---- the spelling of the basic syntaxes' operators: a pattern without a backslash is not touched (every operator it rewrites
+   is written with one) ---- *)
+Definition pre_plain (q : pst) : Prop := match q with PE _ => False | _ => True end.
+Lemma pre_no_backslash_len gb pq nl : forall n s q, length s <= n -> forallb (fun c => negb (c =? c_bs)) s = true -> pre_plain q ->
+  pre gb pq nl q s = s.
+Proof.
+  induction n as [|n IH]; intros s q Hn Hs Hq.
+  - destruct s; [|cbn in Hn; lia]. destruct q; cbn in Hq; try contradiction; reflexivity.
+  - destruct s as [|c s]; [destruct q; cbn in Hq; try contradiction; reflexivity|].
+    cbn [length] in Hn. assert (Hl : length s <= n) by lia.
+    cbn [forallb] in Hs. apply andb_true_iff in Hs as [Hc Hs]. apply negb_true_iff in Hc.
+    destruct q as [st|st|mc mr|k prev|prev]; cbn in Hq; try contradiction; cbn [pre].
+    + rewrite Hc. destruct (c =? c_lb); [rewrite IH; auto; exact I|].
+      destruct (nl && (c =? c_nl)); [rewrite IH; auto; exact I|].
+      destruct (st && (c =? c_caret)); rewrite IH; auto; exact I.
     + destruct (mc && (c =? c_caret)); [rewrite IH; auto; exact I|].
       destruct (mr && (c =? c_rb)); [rewrite IH; auto; exact I|].
       destruct (c =? c_rb); [rewrite IH; auto; exact I|].
-      destruct (c =? c_lb); rewrite IH; auto; exact I.
+      destruct (c =? c_lb); [|rewrite IH; auto; exact I].
+      destruct s as [|k s2]; [reflexivity|].
+      destruct ((k =? c_colon) || (k =? c_dot) || (k =? c_eq)).
+      * cbn [forallb] in Hs. apply andb_true_iff in Hs as [Hk Hs2]. cbn [length] in Hl.
+        rewrite IH; [reflexivity|lia|exact Hs2|exact I].
+      * rewrite IH; auto; exact I.
+    + destruct (prev && (c =? c_rb)); rewrite IH; auto; exact I.
+    + destruct (prev && (c =? c_rbrace)); rewrite IH; auto; exact I.
 Qed.
-Theorem emacs_text_unchanged p : forallb (fun c => negb (c =? c_bs)) p = true -> inside_group false false false p = p.
-Proof. intros H. unfold inside_group. now apply wrap_emacs_plain. Qed.
+Theorem spell_no_backslash gb pq nl p : forallb (fun c => negb (c =? c_bs)) p = true -> spell gb pq nl p = p.
+Proof. intros H. unfold spell. destruct (gb || pq); [|reflexivity]. now apply (pre_no_backslash_len gb pq nl (length p)). Qed.
+
+(* The spelled text is a fixed point of the spelling: read again by the same rules it holds no brace with nothing to repeat
+   (grep) and no "\+" / "\?" operator (posix-basic) - what was rewritten is read as what it was rewritten to, and the reading
+   goes on in the same state. *)
+Lemma pre_pb_head gb pq nl mc mr c s : exists t, pre gb pq nl (PB mc mr) (c :: s) = c :: t.
+Proof.
+  cbn [pre]. destruct (mc && (c =? c_caret)); [now eexists|]. destruct (mr && (c =? c_rb)); [now eexists|].
+  destruct (c =? c_rb); [now eexists|]. destruct (c =? c_lb); [|now eexists].
+  destruct s as [|d s2]; [now eexists|]. destruct ((d =? c_colon) || (d =? c_dot) || (d =? c_eq)); now eexists.
+Qed.
+Lemma pre_idem_len gb pq nl : forall n s q, length s <= n -> pre_plain q ->
+  pre gb pq nl q (pre gb pq nl q s) = pre gb pq nl q s.
+Proof.
+  induction n as [|n IH]; intros s q Hn Hq.
+  - destruct s; [|cbn in Hn; lia]. destruct q; cbn in Hq; try contradiction; reflexivity.
+  - destruct s as [|c s]; [destruct q; cbn in Hq; try contradiction; reflexivity|].
+    cbn [length] in Hn. assert (Hl : length s <= n) by lia.
+    destruct q as [st|st|mc mr|k prev|prev]; cbn in Hq; try contradiction.
+    + (* outside *)
+      cbn [pre]. destruct (c =? c_bs) eqn:Eb.
+      * apply Nat.eqb_eq in Eb. subst c.
+        destruct s as [|c2 s2]; [reflexivity|]. cbn [length] in Hl. assert (Hl2 : length s2 <= n) by lia.
+        cbn [pre]. destruct ((c2 =? c_lp) || (c2 =? c_bar)) eqn:E1.
+        { cbn [pre]. change (c_bs =? c_bs) with true. cbv iota. cbn [pre]. rewrite E1. now rewrite IH. }
+        destruct (c2 =? c_lbrace) eqn:E2.
+        { apply Nat.eqb_eq in E2. subst c2. destruct st.
+          - destruct gb; cbn [app pre].
+            + change (c_lbrace =? c_bs) with false. change (c_lbrace =? c_lb) with false. change (c_lbrace =? c_nl) with false.
+              change (c_lbrace =? c_caret) with false. rewrite !andb_false_r. now rewrite IH.
+            + change (c_bs =? c_bs) with true. cbv iota. cbn [pre]. change (c_lbrace =? c_lp) with false.
+              change (c_lbrace =? c_bar) with false. change (c_lbrace =? c_lbrace) with true. cbn [orb]. cbv iota.
+              cbn [app]. now rewrite IH.
+          - cbn [pre]. change (c_bs =? c_bs) with true. cbv iota. cbn [pre]. change (c_lbrace =? c_lp) with false.
+            change (c_lbrace =? c_bar) with false. change (c_lbrace =? c_lbrace) with true. cbn [orb]. cbv iota. now rewrite IH. }
+        destruct (pq && negb st && (c2 =? c_plus)) eqn:E3.
+        { apply andb_true_iff in E3 as [E3 _]. apply andb_true_iff in E3 as [_ E3]. apply negb_true_iff in E3. subst st.
+          cbn [app pre]. change (c_bs =? c_bs) with true. cbv iota. cbn [pre orb andb]. cbn [pre]. now rewrite IH. }
+        destruct (pq && negb st && (c2 =? c_qm)) eqn:E4.
+        { apply andb_true_iff in E4 as [E4 _]. apply andb_true_iff in E4 as [_ E4]. apply negb_true_iff in E4. subst st.
+          cbn [app pre]. change (c_bs =? c_bs) with true. cbv iota. cbn [pre orb andb]. cbn [pre]. now rewrite IH. }
+        cbn [pre]. change (c_bs =? c_bs) with true. cbv iota. cbn [pre]. rewrite E1, E2, E3, E4. now rewrite IH.
+      * destruct (c =? c_lb) eqn:E1; [cbn [pre]; rewrite Eb, E1; now rewrite IH|].
+        destruct (nl && (c =? c_nl)) eqn:E2; [cbn [pre]; rewrite Eb, E1, E2; now rewrite IH|].
+        destruct (st && (c =? c_caret)) eqn:E3; cbn [pre]; rewrite Eb, E1, E2, E3; now rewrite IH.
+    + (* bracket expression *)
+      cbn [pre]. destruct (mc && (c =? c_caret)) eqn:E1; [cbn [pre]; rewrite E1; now rewrite IH|].
+      destruct (mr && (c =? c_rb)) eqn:E2; [cbn [pre]; rewrite E1, E2; now rewrite IH|].
+      destruct (c =? c_rb) eqn:E3.
+      { rewrite andb_true_r in E2. subst mr. cbn [pre]. rewrite E1, E3. cbn [andb]. now rewrite IH. }
+      assert (E2' : forall b, b && (c =? c_rb) = false) by (intros b; rewrite E3; apply andb_false_r).
+      destruct (c =? c_lb) eqn:E4; [|cbn [pre]; rewrite E1, E2', E3, E4; now rewrite IH].
+      destruct s as [|d s2]; [cbn [pre]; rewrite E1, E2', E3, E4; reflexivity|].
+      cbn [length] in Hl. assert (Hl2 : length s2 <= n) by lia.
+      destruct ((d =? c_colon) || (d =? c_dot) || (d =? c_eq)) eqn:E5.
+      * cbn [pre]. rewrite E1, E2', E3, E4, E5. now rewrite IH.
+      * destruct (pre_pb_head gb pq nl false false d s2) as (t & Et).
+        assert (Hi : pre gb pq nl (PB false false) (pre gb pq nl (PB false false) (d :: s2)) = pre gb pq nl (PB false false) (d :: s2))
+          by (apply IH; [exact Hl|exact I]).
+        assert (Hstep : forall u, pre gb pq nl (PB mc mr) (c :: d :: u) = c :: pre gb pq nl (PB false false) (d :: u))
+          by (intros u; cbn [pre]; rewrite E1, E2', E3, E4, E5; reflexivity).
+        rewrite Et in *. rewrite Hstep. now rewrite Hi.
+    + cbn [pre]. destruct (prev && (c =? c_rb)) eqn:E1; cbn [pre]; rewrite E1; now rewrite IH.
+    + cbn [pre]. destruct (prev && (c =? c_rbrace)) eqn:E1; cbn [pre]; rewrite E1; now rewrite IH.
+Qed.
+Theorem spell_idempotent gb pq nl p : spell gb pq nl (spell gb pq nl p) = spell gb pq nl p.
+Proof. unfold spell. destruct (gb || pq); [|reflexivity]. now apply (pre_idem_len gb pq nl (length p)). Qed.
